@@ -85,6 +85,11 @@ def run (args : List String) : Option String :=
     let req ← (match req with | "utm" => some UtmReq.utm | "utm-n" => some .utmN | "utm-s" => some .utmS | _ => none)
     let epsg ← parseInt? epsg; let south ← parseBool? south
     pure (fmtInt (normUtm req epsg south))
+  | ["utmtxt", raw, epsg, south] => do
+    let epsg ← parseInt? epsg; let south ← parseBool? south
+    pure (match parseUtm raw with
+      | none => "other"
+      | some r => fmtInt (normUtm r epsg south))
   | ["pick", cands, big] => do
     let cands ← parseList? parseCand? cands
     let big ← parseBool? big
